@@ -447,9 +447,10 @@ def mem2_newton_solver(
         magnitude_current_iterate = np.linalg.norm(current_iterate)
         magnitude_update = np.linalg.norm(update_iterate)
 
-        if magnitude_update == 0.0:
+        if magnitude_update == 0.0 or not np.isfinite(magnitude_update):
             # Singular jacobian (the distribution collapsed onto a single bin): the
-            # least-squares update vanishes and there is nothing to search along.
+            # least-squares update vanishes - or overflows - and there is nothing to
+            # search along.
             convergence = False
             break
 
